@@ -1,6 +1,7 @@
 package main
 
 import (
+	big2 "math/big"
 	"math/big"
 	"strings"
 
@@ -291,6 +292,25 @@ func init() {
 			}
 			m[mi+"String"] = func(ex *Exec, fr *frame, cc *ssa.CallCommon, a []Value) Value { return ex.fmtAtom("itoa", a[0]) }
 		}
+		// LegacyNewDecFromBigIntWithPrec / LegacyNewDecFromIntWithPrec(i, prec): raw = i * 10^(18-prec)
+		decWithPrec := func(big bool) intrinsic {
+			return func(ex *Exec, fr *frame, cc *ssa.CallCommon, a []Value) Value {
+				var t Term
+				if big {
+					t = bigVal(a[0])
+				} else {
+					t = ti(a[0])
+				}
+				p := ti(a[1])
+				if !p.Const || p.I.Sign() < 0 || p.I.Int64() > 18 {
+					panic(unsupported{"LegacyNewDec...WithPrec with a symbolic or out-of-range precision"})
+				}
+				scale := new(big2.Int).Exp(big2.NewInt(10), big2.NewInt(18-p.I.Int64()), nil)
+				return VInt{Mul(t, IntB(scale))}
+			}
+		}
+		m["cosmossdk.io/math.LegacyNewDecFromBigIntWithPrec"] = decWithPrec(true)
+		m["cosmossdk.io/math.LegacyNewDecFromIntWithPrec"] = decWithPrec(false)
 		m["cosmossdk.io/math.NewInt"] = id
 		m["cosmossdk.io/math.NewIntFromUint64"] = id
 		m["cosmossdk.io/math.NewUint"] = id
